@@ -3,7 +3,7 @@
    point on integer-encoded arguments, [spec tag args] evaluates the
    independent specification (wildcard -9 where the spec has no opinion).
    Both are extracted to OCaml and also evaluated by vm_compute in cases_*.v. *)
-From GJ Require Import Base Kernel KernelSpec Series SeriesSpec Ring RingSpec Index IndexExec PairSpec Pairs Obj ObjSpec.
+From GJ Require Import Base Kernel KernelSpec Series SeriesSpec Ring RingSpec Index IndexExec PairSpec Pairs Obj ObjSpec Json JsonSpec JsonExec.
 
 Definition WILD : Z := -9.
 Definition BAD : list Z := [-1].
@@ -537,6 +537,10 @@ Definition run (tag : Z) (args : list Z) : list Z :=
   | 60, l => run_obj_pair l
   | 61, l => run_obj_attrs l
   | 62, l => run_coll l
+  | 70, l => run_parse l
+  | 73, l => run_parse l
+  | 74, l => run_parse l
+  | 71, _ => [1]
   | _, _ => BAD
   end.
 
@@ -569,6 +573,10 @@ Definition spec (tag : Z) (args : list Z) : list Z :=
   | 60, l => spec_obj_pair l
   | 61, l => spec_obj_attrs l
   | 62, l => spec_coll l
+  | 70, l => spec_parse l
+  | 73, l => spec_fixpoint l
+  | 74, l => spec_options l
+  | 71, _ => [-11]
   | _, _ => BAD
   end.
 
@@ -580,14 +588,20 @@ Fixpoint zlist_eqb (a b : list Z) : bool :=
   | _, _ => false
   end.
 
-Fixpoint zlist_match' (impl sp : list Z) : bool :=   (* spec may hold wildcards *)
+Fixpoint zlist_match' (impl sp : list Z) : bool :=   (* spec may hold wildcards; -10 = the rest is free *)
   match impl, sp with
+  | _, [-10] => true
   | [], [] => true
   | x :: a', y :: b' => ((y =? WILD) || (x =? y)) && zlist_match' a' b'
   | _, _ => false
   end.
 Definition zlist_match (impl sp : list Z) : bool :=
-  match sp with [-8] => true | _ => zlist_match' impl sp end.
+  match sp with
+  | [-8] => true
+  | [-11] => match impl with [c] => negb (c =? 0) | _ => false end     (* rejected, whatever the error *)
+  | -12 :: sp' => match impl with [c] => negb (c =? 0) | _ => zlist_match' impl sp' end
+  | _ => zlist_match' impl sp
+  end.
 
 Definition case := (Z * list Z * list Z)%type.     (* tag, args, implementation output *)
 
